@@ -1145,21 +1145,82 @@ Proof.
   - destruct (IH _ eq_refl x Hx) as (y' & Hy & Hin). exists y'. split; [exact Hy|right; exact Hin].
 Qed.
 
-(* every content part is written back as its (merged) root element *)
+(* File.root_element looks at a File only through its path and through whether
+   its Type is a content type *)
+Lemma part_root_ext : forall a fs o f f',
+  f_path f' = f_path f ->
+  mem_str (f_type f') content_file_types = mem_str (f_type f) content_file_types ->
+  part_root a fs o f' = part_root a fs o f.
+Proof.
+  intros a fs o f f' Hp Hk. unfold part_root, file_rels_or_empty, file_rels.
+  rewrite Hp, Hk. reflexivity.
+Qed.
+
+(* save() writes ONE member per path: the tree of the LAST rewritten File with
+   that path.  [same_kind_as_saved fs f]: that File and f agree on being a
+   content part (then their root elements are the same) *)
+Definition same_kind_as_saved (fs : list frec) (f : frec) : bool :=
+  match last_with_path (f_path f)
+          (filter (fun f => mem_str (f_type f) save_overwrite_types) fs) with
+  | Some f' => Bool.eqb (mem_str (f_type f') content_file_types)
+                        (mem_str (f_type f) content_file_types)
+  | None => true
+  end.
+
+(* it holds when no File of the other kind shares f's path — in particular
+   when f's path is the target of one relationship only *)
+Lemma same_kind_no_alias : forall fs f,
+  (forall f', In f' fs -> mem_str (f_type f') save_overwrite_types = true ->
+              f_path f' = f_path f ->
+              mem_str (f_type f') content_file_types = mem_str (f_type f) content_file_types) ->
+  same_kind_as_saved fs f = true.
+Proof.
+  intros fs f H. unfold same_kind_as_saved.
+  destruct (last_with_path _ _) as [f'|] eqn:E; [|reflexivity].
+  apply last_with_path_Some in E. destruct E as [Hin Hp].
+  apply filter_In in Hin. destruct Hin as [Hin Hty].
+  rewrite (H f' Hin Hty Hp). apply Bool.eqb_reflx.
+Qed.
+
+Lemma same_kind_part_root : forall a fs o f f',
+  last_with_path (f_path f)
+    (filter (fun f => mem_str (f_type f) save_overwrite_types) fs) = Some f' ->
+  same_kind_as_saved fs f = true ->
+  part_root a fs o f' = part_root a fs o f.
+Proof.
+  intros a fs o f f' Hl Hk. unfold same_kind_as_saved in Hk. rewrite Hl in Hk.
+  apply Bool.eqb_prop in Hk. apply last_with_path_Some in Hl. destruct Hl as [_ Hp].
+  apply part_root_ext; assumption.
+Qed.
+
+(* every rewritten path is written back as the root element of the LAST
+   rewritten File with that path *)
 Theorem save_then_part_root : forall a o out,
   save a o = Ok out ->
   exists fs, files a = Ok fs /\
     forall f, In f fs -> mem_str (f_type f) save_overwrite_types = true ->
-      exists t, part_root a fs o f = Ok t /\ In (f_path f, WXml t) out.
+      exists f' t,
+        last_with_path (f_path f)
+          (filter (fun f => mem_str (f_type f) save_overwrite_types) fs) = Some f'
+        /\ part_root a fs o f' = Ok t /\ In (f_path f, WXml t) out.
 Proof.
   intros a o out H. unfold save in H. bind_inv H as fs Efs. exists fs. split; [reflexivity|].
-  intros f Hf Hty.
-  destruct (save_written_exact _ _ _ _ H) as (copied & written & -> & _ & Hw).
-  assert (Hin : In f (filter (fun f => mem_str (f_type f) save_overwrite_types) fs)).
-  { apply filter_In. split; assumption. }
-  destruct (mapM_In_fwd _ _ _ Hw f Hin) as (y & Hy & Hyin).
-  bind_inv Hy as t Et. injection Hy as <-.
-  exists t. split; [reflexivity|]. apply in_or_app. right. exact Hyin.
+  intros f Hf Hty. exact (save_written_fwd _ _ _ _ H f Hf Hty).
+Qed.
+
+(* the statement from before the fix ("f is written back as ITS root element")
+   needs the File that wins f's path to be of f's kind *)
+Theorem save_then_part_root_same_kind : forall a o out,
+  save a o = Ok out ->
+  exists fs, files a = Ok fs /\
+    forall f, In f fs -> mem_str (f_type f) save_overwrite_types = true ->
+      same_kind_as_saved fs f = true ->
+      exists t, part_root a fs o f = Ok t /\ In (f_path f, WXml t) out.
+Proof.
+  intros a o out H. destruct (save_then_part_root a o out H) as (fs & Hfs & Hall).
+  exists fs. split; [exact Hfs|]. intros f Hf Hty Hk.
+  destruct (Hall f Hf Hty) as (f' & t & Hl & Ht & Hin).
+  exists t. split; [|exact Hin]. rewrite <- (same_kind_part_root a fs o f f' Hl Hk). exact Ht.
 Qed.
 
 (* conversely, everything that is written as XML is such a root *)
@@ -1169,13 +1230,10 @@ Theorem save_written_is_part_root : forall a o out n t,
     /\ n = f_path f /\ part_root a fs o f = Ok t.
 Proof.
   intros a o out n t H Hin. unfold save in H. bind_inv H as fs Efs.
-  destruct (save_written_exact _ _ _ _ H) as (copied & written & -> & Hc & Hw).
-  apply in_app_or in Hin. destruct Hin as [Hin|Hin].
-  - rewrite Forall_forall in Hc. destruct (Hc _ Hin) as [i Hi]. discriminate Hi.
-  - destruct (SaveFacts.mapM_In _ _ _ _ _ Hw _ Hin) as (f & Hf & Hy).
-    apply filter_In in Hf. destruct Hf as [Hf Hty].
-    bind_inv Hy as t' Et. injection Hy as <- <-.
-    exists fs, f. auto.
+  destruct (save_written_bwd _ _ _ _ _ _ H Hin) as (f & Hl & Ht).
+  apply last_with_path_Some in Hl. destruct Hl as [Hf Hp].
+  apply filter_In in Hf. destruct Hf as [Hf Hty].
+  exists fs, f. auto.
 Qed.
 
 (* the environment File.root_element merges under *)
@@ -1202,6 +1260,7 @@ Qed.
 Theorem C16_reextract_partial : forall pt a o out fs f r rels,
   save a o = Ok out -> files a = Ok fs -> In f fs ->
   mem_str (f_type f) content_file_types = true ->
+  same_kind_as_saved fs f = true ->
   member_xml a (f_path f) = Ok r -> file_rels_or_empty a fs f = Ok rels ->
   rels_ok (merge_env o rels) -> wf_ptag pt (view r) = true -> wf_pr (view r) = true ->
   exists t, In (f_path f, WXml t) out /\ part_root a fs o f = Ok t
@@ -1210,10 +1269,10 @@ Theorem C16_reextract_partial : forall pt a o out fs f r rels,
                   = collect_from v [] t)
     /\ reextract a fs o f t = part_collector a fs o f.
 Proof.
-  intros pt a o out fs f r rels Hs Hfs Hf Hty Hr Hrels Hok Hpt Hpr.
-  destruct (save_then_part_root a o out Hs) as (fs' & Hfs' & Hall).
+  intros pt a o out fs f r rels Hs Hfs Hf Hty Hkind Hr Hrels Hok Hpt Hpr.
+  destruct (save_then_part_root_same_kind a o out Hs) as (fs' & Hfs' & Hall).
   rewrite Hfs in Hfs'. injection Hfs' as <-.
-  destruct (Hall f Hf (content_is_overwritten _ Hty)) as (t & Ht & Hin).
+  destruct (Hall f Hf (content_is_overwritten _ Hty) Hkind) as (t & Ht & Hin).
   exists t. split; [exact Hin|]. split; [exact Ht|].
   assert (Hm : merge_elems (merge_env o rels) t = Ok t).
   { unfold part_root in Ht. rewrite Hr in Ht. cbn [bind] in Ht. rewrite Hty, Hrels in Ht.
@@ -1395,23 +1454,119 @@ Qed.
 (* ================================================================== *)
 (* 8. replace_docx writes replace_all of every content part             *)
 (* ================================================================== *)
+(* per path: the LAST rewritten File with that path, its root element with the
+   pairs applied (when it is a content part) *)
 Theorem replace_docx_written : forall a o pairs out,
   replace_docx a o pairs = Ok out ->
   exists fs, files a = Ok fs /\
     forall f, In f fs -> mem_str (f_type f) save_overwrite_types = true ->
-      exists t t', part_root a fs o f = Ok t
-        /\ (if mem_str (f_type f) content_file_types then replace_all pairs t else Ok t) = Ok t'
+      exists f' t t',
+        last_with_path (f_path f)
+          (filter (fun f => mem_str (f_type f) save_overwrite_types) fs) = Some f'
+        /\ part_root a fs o f' = Ok t
+        /\ (if mem_str (f_type f') content_file_types then replace_all pairs t else Ok t) = Ok t'
         /\ In (f_path f, WXml t') out.
 Proof.
   intros a o pairs out H. unfold replace_docx in H. bind_inv H as fs Efs.
   exists fs. split; [reflexivity|]. intros f Hf Hty.
-  destruct (save_written_exact _ _ _ _ H) as (copied & written & -> & _ & Hw).
-  assert (Hin : In f (filter (fun f => mem_str (f_type f) save_overwrite_types) fs)).
-  { apply filter_In. split; assumption. }
-  destruct (mapM_In_fwd _ _ _ Hw f Hin) as (y & Hy & Hyin).
-  bind_inv Hy as t' Et'. injection Hy as <-. bind_inv Et' as t Et.
-  exists t, t'. split; [reflexivity|]. split; [exact Et'|].
-  apply in_or_app. right. exact Hyin.
+  destruct (save_written_fwd _ _ _ _ H f Hf Hty) as (f' & t' & Hl & Ht' & Hin).
+  bind_inv Ht' as t Et.
+  exists f', t, t'. split; [exact Hl|]. split; [exact Et|]. split; [exact Ht'|exact Hin].
+Qed.
+
+(* the statement from before the fix, under the kind hypothesis *)
+Theorem replace_docx_written_same_kind : forall a o pairs out,
+  replace_docx a o pairs = Ok out ->
+  exists fs, files a = Ok fs /\
+    forall f, In f fs -> mem_str (f_type f) save_overwrite_types = true ->
+      same_kind_as_saved fs f = true ->
+      exists t t', part_root a fs o f = Ok t
+        /\ (if mem_str (f_type f) content_file_types then replace_all pairs t else Ok t) = Ok t'
+        /\ In (f_path f, WXml t') out.
+Proof.
+  intros a o pairs out H. destruct (replace_docx_written a o pairs out H) as (fs & Hfs & Hall).
+  exists fs. split; [exact Hfs|]. intros f Hf Hty Hk.
+  destruct (Hall f Hf Hty) as (f' & t & t' & Hl & Ht & Hr & Hin).
+  exists t, t'. rewrite <- (same_kind_part_root a fs o f f' Hl Hk).
+  split; [exact Ht|]. split; [|exact Hin].
+  unfold same_kind_as_saved in Hk. rewrite Hl in Hk. apply Bool.eqb_prop in Hk.
+  rewrite <- Hk. exact Hr.
+Qed.
+
+(* ================================================================== *)
+(* 9. the kind hypothesis is needed: a part that is the target of an    *)
+(*    officeDocument relationship AND of a later one of type            *)
+(*    "relationships" is saved unmerged                                 *)
+(* ================================================================== *)
+Section Alias.
+  Import String.StringSyntax.
+  Local Open Scope string_scope.
+  (* <w:document><w:body><w:p><w:r><w:t>a</w:t></w:r><w:r><w:t>b</w:t></w:r></w:p>... *)
+  Definition al_doc : rnode :=
+    sh_wel "document" None
+      [sh_wel "body" None
+         [sh_wel "p" None [sh_wel "r" None [sh_wel "t" (Some "a") []];
+                           sh_wel "r" None [sh_wel "t" (Some "b") []]]]].
+  Definition al_archive : archive :=
+    [(s2l "_rels/.rels",
+        MXml (sh_rels [sh_rel "rId1" "t/officeDocument" "word/document.xml";
+                       sh_rel "rId2" "t/relationships" "word/document.xml"]));
+     (s2l "word/document.xml", MXml al_doc)].
+  Definition al_pt (an : aname) : str := prefixed (Some s_w) (snd an).
+  Definition al_od : frec :=
+    {| f_id := s2l "rId1"; f_type := s2l "officeDocument"; f_target := s2l "word/document.xml";
+       f_dir := s2l "_rels" |}.
+End Alias.
+
+Lemma al_rels_ok : rels_ok (merge_env sh_opts []).
+Proof. intros k t H. discriminate H. Qed.
+
+(* every hypothesis of C16_reextract_partial except same_kind_as_saved holds;
+   the one member written under the part's path is NOT its root element (the
+   two runs are not merged in it) *)
+Lemma save_then_part_root_counterexample :
+  exists out fs t t',
+    save al_archive sh_opts = Ok out /\ files al_archive = Ok fs /\ In al_od fs
+    /\ mem_str (f_type al_od) content_file_types = true
+    /\ member_xml al_archive (f_path al_od) = Ok al_doc
+    /\ file_rels_or_empty al_archive fs al_od = Ok []
+    /\ wf_ptag al_pt (view al_doc) = true /\ wf_pr (view al_doc) = true
+    /\ same_kind_as_saved fs al_od = false
+    /\ part_root al_archive fs sh_opts al_od = Ok t
+    /\ filter (fun nm => str_eqb (fst nm) (f_path al_od)) out = [(f_path al_od, WXml t')]
+    /\ t' = view al_doc /\ t <> t'.
+Proof.
+  do 4 eexists.
+  split; [vm_compute; reflexivity|]. split; [vm_compute; reflexivity|].
+  split; [left; reflexivity|].
+  repeat (split; [vm_compute; reflexivity|]).
+  vm_compute. intros E. discriminate E.
+Qed.
+
+Lemma in_filter_one : forall {A} (g : A -> bool) l x y,
+  filter g l = [y] -> In x l -> g x = true -> x = y.
+Proof.
+  intros A g l x y H Hin Hg.
+  assert (Hx : In x (filter g l)) by (apply filter_In; split; assumption).
+  rewrite H in Hx. destruct Hx as [<-|[]]. reflexivity.
+Qed.
+
+Lemma C16_reextract_counterexample :
+  exists pt a o out fs f r rels,
+    save a o = Ok out /\ files a = Ok fs /\ In f fs
+    /\ mem_str (f_type f) content_file_types = true
+    /\ member_xml a (f_path f) = Ok r /\ file_rels_or_empty a fs f = Ok rels
+    /\ rels_ok (merge_env o rels) /\ wf_ptag pt (view r) = true /\ wf_pr (view r) = true
+    /\ ~ exists t, In (f_path f, WXml t) out /\ part_root a fs o f = Ok t.
+Proof.
+  destruct save_then_part_root_counterexample
+    as (out & fs & t & t' & Hs & Hfs & Hin & Hty & Hr & Hrels & Hpt & Hpr & _ & Ht & Hone & _ & Hne).
+  exists al_pt, al_archive, sh_opts, out, fs, al_od, al_doc, [].
+  repeat (split; [assumption|]). split; [exact al_rels_ok|].
+  split; [exact Hpt|]. split; [exact Hpr|].
+  intros [t0 [Hin0 Ht0]]. rewrite Ht in Ht0. injection Ht0 as <-.
+  pose proof (in_filter_one _ _ _ _ Hone Hin0 (str_eqb_refl _)) as E.
+  injection E as E. exact (Hne E).
 Qed.
 
 (* ==== ASSUMPTIONS ==== *)
@@ -1434,6 +1589,8 @@ Print Assumptions replace_all_skip_head.
 Print Assumptions replace_all_skip.
 Print Assumptions replace_all_noop.
 Print Assumptions save_then_part_root.
+Print Assumptions save_then_part_root_same_kind.
+Print Assumptions same_kind_no_alias.
 Print Assumptions save_written_is_part_root.
 Print Assumptions C16_reextract_partial.
 Print Assumptions ex_hypotheses.
@@ -1443,3 +1600,6 @@ Print Assumptions view_t_named.
 Print Assumptions emit_replace_nodewise_counterexample.
 Print Assumptions run_formatting_changes_without_pr_hypothesis.
 Print Assumptions replace_docx_written.
+Print Assumptions replace_docx_written_same_kind.
+Print Assumptions save_then_part_root_counterexample.
+Print Assumptions C16_reextract_counterexample.
